@@ -345,7 +345,10 @@ func runIOReader(c *IOCase, x *sim.Ctx) *sim.Violation {
 					v = sim.Viol("source-error-masked", fs+":open", "%s: constructor returned %q instead of the source's error", what, res.OpenErr.Error())
 				}
 			case res.Final == io.EOF:
-				if res.Src.BareFired > 0 {
+				if len(res.Out) != len(b.Content) {
+					// whatever the reader did with the error, an incomplete output must not end cleanly
+					v = sim.Viol("source-error-as-eof", fs+":incomplete", "%s: clean end of stream after %d of %d bytes", what, len(res.Out), len(b.Content))
+				} else if res.Src.BareFired > 0 {
 					v = sim.Viol("source-error-as-eof", fs, "%s: clean end of stream after %d of %d bytes", what, len(res.Out), len(b.Content))
 				} else {
 					x.Count("error-delivered-with-last-needed-bytes(reader-complete)", 1)
